@@ -768,6 +768,142 @@ fn kernel_forms(rng: &mut Rng, args: &Args, t: &mut Shards, st: &mut Stats, dt: 
     }
 }
 
+
+// ------------------------------------------- sort paths x null patterns x options x limits
+
+/// a column of `n` non-null rows with duplicates for the sort path named `name`
+fn path_values(rng: &mut Rng, name: &str, dt: &DataType, n: usize) -> ArrayRef {
+    let words_short = ["", "a", "ab", "b", "a\0", "abcdefghijkl", "abcdefghijk"];
+    let words_long = ["", "a", "abcdefghijkl", "abcdefghijklm", "abcdefghijklmnopqrstuvwxyz", "abcdefghijklmn", "b", "abcdefghijklM"];
+    match name {
+        "Utf8View/inline" => Arc::new(StringViewArray::from_iter_values((0..n).map(|_| *rng.pick(&words_short)))),
+        "Utf8View/buffers" => Arc::new(StringViewArray::from_iter_values((0..n).map(|_| *rng.pick(&words_long)))),
+        "BinaryView/inline" => Arc::new(BinaryViewArray::from_iter_values((0..n).map(|_| rng.pick(&words_short).as_bytes()))),
+        "BinaryView/buffers" => Arc::new(BinaryViewArray::from_iter_values((0..n).map(|_| rng.pick(&words_long).as_bytes()))),
+        _ => {
+            let m = 2 + rng.below(4);
+            let base = mk::array(rng, dt, m, Cfg::wild(0));
+            let idx = UInt32Array::from((0..n).map(|_| rng.below(m) as u32).collect::<Vec<_>>());
+            match guarded(|| arrow_select::take::take(base.as_ref(), &idx, None)) {
+                Ok(Ok(a)) if a.len() == n => a,
+                _ => mk::array(rng, dt, n, Cfg::wild(0)),
+            }
+        }
+    }
+}
+
+/// rows of `vals` with nulls at the positions of the pattern: 0 none, 1 first, 2 middle, 3 last,
+/// 4 all but two, 5 all
+fn null_pattern(vals: &ArrayRef, pattern: usize) -> Option<ArrayRef> {
+    let n = vals.len();
+    let is_null = |i: usize| match pattern {
+        0 => false,
+        1 => i == 0,
+        2 => i == n / 2,
+        3 => i + 1 == n,
+        4 => i != 1 && i + 2 != n,
+        _ => true,
+    };
+    let nulls = guarded(|| new_null_array(vals.data_type(), 1)).ok()?;
+    let idx: Vec<(usize, usize)> = (0..n).map(|i| if is_null(i) { (1, 0) } else { (0, i) }).collect();
+    let a = guarded(|| arrow_select::interleave::interleave(&[vals.as_ref(), nulls.as_ref()], &idx)).ok()?.ok()?;
+    (a.len() == n && a.data_type() == vals.data_type()).then_some(a)
+}
+
+/// every family with its own path in sort_to_indices gets the product of null patterns, SortOptions
+/// and the limits around 0, the null count and the length, for sort_to_indices, sort, sort_limit and
+/// the single-column lexsort (which is also the only sort of struct / map / union columns)
+fn sort_product(rng: &mut Rng, args: &Args, t: &mut Shards, st: &mut Stats, name: &str, dt: &DataType) {
+    for pattern in 0..6usize {
+        let n = 8 + rng.below(if args.thorough() { 13 } else { 7 });
+        // dictionary / run-end columns: the pattern is laid over the values, then they are encoded
+        let col: Option<ArrayRef> = match dt {
+            DataType::Dictionary(k, v) => {
+                let p = path_values(rng, name, v, n);
+                null_pattern(&p, pattern).and_then(|p| dict_encode(rng, &p, k))
+            }
+            DataType::RunEndEncoded(r, v) => {
+                let p = path_values(rng, name, v.data_type(), n);
+                let w = match r.data_type() {
+                    DataType::Int16 => 16,
+                    DataType::Int32 => 32,
+                    _ => 64,
+                };
+                null_pattern(&p, pattern).and_then(|p| ree_encode(rng, &p, w, 20)).map(|x| x.0)
+            }
+            _ => {
+                let p = path_values(rng, name, dt, n);
+                null_pattern(&p, pattern)
+            }
+        };
+        let Some(col) = col else { continue };
+        if col.data_type() != dt {
+            continue;
+        }
+        let Ok(toks) = guarded(|| tok::rows(col.as_ref())) else { continue };
+        let nc = toks.iter().filter(|x| *x == tok::NULL).count();
+        let mut lims: Vec<usize> = vec![0, 1, 2, nc.saturating_sub(1), nc, nc + 1, n - 1, n, n + 1];
+        lims.sort();
+        lims.dedup();
+        let mut ep = Ep::begin(t, st, vec![col], &format!("{name} nulls:{pattern}"));
+        for o in ALL_OPTS {
+            ep.sort_idx(0, Some(o), None);
+            ep.sort_vals(0, Some(o), None, false);
+            ep.lexsort_idx(&[0], &[o], None);
+            for l in &lims {
+                ep.sort_idx(0, Some(o), Some(*l));
+                ep.sort_vals(0, Some(o), Some(*l), true);
+                ep.lexsort_idx(&[0], &[o], Some(*l));
+            }
+            let l = *rng.pick(&lims);
+            ep.lexsort_vals(&[0], &[o], Some(l));
+        }
+    }
+}
+
+/// (name, type) of one representative per sort path of arrow-ord/src/sort.rs (sort_to_indices dispatch)
+fn sort_paths(thorough: bool) -> Vec<(String, DataType)> {
+    use DataType::*;
+    let f = |t: DataType| Arc::new(Field::new("item", t, true));
+    let mut v: Vec<(String, DataType)> = vec![
+        ("Int32".into(), Int32),                                       // sort_primitive
+        ("Float64".into(), Float64),
+        ("Boolean".into(), Boolean),                                   // sort_boolean
+        ("Utf8".into(), Utf8),                                         // sort_bytes
+        ("LargeBinary".into(), LargeBinary),
+        ("Utf8View/inline".into(), Utf8View),                          // sort_byte_view, all views inline
+        ("Utf8View/buffers".into(), Utf8View),                         // sort_byte_view, with data buffers
+        ("BinaryView/inline".into(), BinaryView),
+        ("BinaryView/buffers".into(), BinaryView),
+        ("FixedSizeBinary(3)".into(), FixedSizeBinary(3)),             // sort_fixed_size_binary
+        ("Dictionary(Int8, Utf8)".into(), Dictionary(Box::new(Int8), Box::new(Utf8))),       // sort_dictionary
+        ("Dictionary(UInt16, Int64)".into(), Dictionary(Box::new(UInt16), Box::new(Int64))),
+        ("RunEndEncoded(Int32, Utf8)".into(), RunEndEncoded(Arc::new(Field::new("run_ends", Int32, false)), Arc::new(Field::new("values", Utf8, true)))), // sort_run
+        ("RunEndEncoded(Int16, Int64)".into(), RunEndEncoded(Arc::new(Field::new("run_ends", Int16, false)), Arc::new(Field::new("values", Int64, true)))),
+        ("List(Int32)".into(), List(f(Int32))),                        // sort_list
+        ("LargeList(Utf8View)".into(), LargeList(f(Utf8View))),
+        ("ListView(Int16)".into(), ListView(f(Int16))),                // sort_list_view
+        ("LargeListView(Utf8)".into(), LargeListView(f(Utf8))),
+        ("FixedSizeList(Int8, 2)".into(), FixedSizeList(f(Int8), 2)),  // sort_fixed_size_list
+        // no path of their own in sort_to_indices: sorted by lexsort through the comparator
+        ("Struct".into(), Struct(arrow_schema::Fields::from(vec![Field::new("a", Int32, true), Field::new("b", Utf8, true)]))),
+    ];
+    if thorough {
+        for t in mk::all_types() {
+            let name = short_type(&t);
+            if !v.iter().any(|(_, x)| *x == t) {
+                v.push((name, t));
+            }
+        }
+    }
+    v
+}
+
+fn short_type(t: &DataType) -> String {
+    let s = tok::type_str(t);
+    if s.len() > 40 { format!("{}..", &s[..40]) } else { s }
+}
+
 /// 2-3 columns: lexsort with limits, lexicographic comparator, partition
 fn multi_column(rng: &mut Rng, args: &Args, t: &mut Shards, st: &mut Stats, types: &[DataType]) {
     let k = 2 + rng.below(2);
@@ -950,6 +1086,9 @@ fn main() {
     }
     for dt in &form_types {
         kernel_forms(&mut rng, &args, &mut t, &mut st, dt);
+    }
+    for (name, dt) in sort_paths(args.thorough()) {
+        sort_product(&mut rng, &args, &mut t, &mut st, &name, &dt);
     }
     for d in domains(args.thorough()) {
         let maxlen = if args.thorough() && d.len() <= 4 { 4 } else { 3 };
